@@ -29,7 +29,10 @@ impl<'a, 'r> Wit<'a, 'r> {
       6 => DV::Null,
       7 => DV::Bytes((0..self.rng.usize(4)).map(|_| self.rng.below(256) as u8).collect()),
       8 => DV::Undefined,
-      _ => DV::Int(*self.rng.pick(crate::dv::BOUNDARY_INTS)),
+      _ => {
+        let b = *self.rng.pick(crate::dv::BOUNDARY_INTS);
+        DV::Int(if b >= -(1i128 << 64) && b < (1i128 << 64) { b } else { 0 })
+      }
     }
   }
 
@@ -523,9 +526,15 @@ fn other_scalar(v: &DV, rng: &mut Rng, json: bool) -> DV {
 
 fn mutate_node(v: &mut DV, rng: &mut Rng, json: bool) {
   match v {
-    DV::Int(i) => match rng.below(4) {
+    DV::Int(i) => match rng.below(if json { 4 } else { 6 }) {
       0 => *i += 1,
       1 => *i -= 1,
+      4 | 5 => {
+        let b = *rng.pick(crate::dv::BOUNDARY_INTS);
+        if b >= -(1i128 << 64) && b < (1i128 << 64) {
+          *i = b;
+        }
+      }
       2 => *i = -*i - if rng.bool() { 1 } else { 0 },
       _ => *v = other_scalar(v, rng, json),
     },
@@ -599,7 +608,7 @@ fn mutate_node(v: &mut DV, rng: &mut Rng, json: bool) {
     },
     DV::Tag(t, _) => {
       if rng.bool() {
-        *t += 1
+        *t = t.wrapping_add(1)
       } else {
         *v = other_scalar(v, rng, json)
       }
